@@ -20,7 +20,10 @@ PROP = "C13"
 LEVEL = "exploration"
 RULE = ("all subsets of the clause-setting calls per statement kind (SELECT 2^13, UPDATE 2^6, DELETE 2^4, INSERT 2^7, CREATE 2^8, "
         "DROP 2^1) x six dialect classes, rendered in canonical order; permutation groups: every subset of size 2..5 of "
-        "the commuting calls in all k! orders (sampled orders for larger groups on the thorough tier). non-trivial = at "
+        "the commuting calls in all k! orders (sampled orders for larger groups on the thorough tier); seeded groups of 2..5 calls "
+        "in which every call takes one of its alternative argument forms (names given as strings, strings that equal a select "
+        "alias, aliased terms, USING/LEFT/subquery joins, foreign WHERE, RETURNING forms ...), all orders, plus well-formedness "
+        "and incomplete-builder checks on the result. non-trivial = at "
         "least two calls; distinct = (kind, dialect, call set)")
 ASSUMPTIONS = [
     "clause-order tables per dialect and statement kind are the reference (pvm/checks/c13.py ORDER); acceptance by an engine "
